@@ -31,6 +31,7 @@ type C01Scn struct {
 	Events     []C01Event `json:"events"`
 	InitWaitMs int        `json:"initwait"`
 	IdleMs     int        `json:"idle"`
+	RouteMs    int        `json:"route_ms,omitempty"` // route-update period (default 250 ms); short periods + long InitWaitMs = nodes that have sent hundreds of updates before the first event
 }
 
 func nodeName(i int) string { return fmt.Sprintf("n%d", i) }
@@ -182,8 +183,13 @@ func execC01(b []byte) vx.Verdict {
 	if s.IdleMs > 0 {
 		opts.MaxIdle = time.Duration(s.IdleMs) * time.Millisecond
 	}
+	if s.RouteMs > 0 {
+		opts.RouteUpdate = time.Duration(s.RouteMs) * time.Millisecond
+	}
 	R := opts.RouteUpdate
 	m := vx.NewMesh(opts)
+	t0 := time.Now()
+	agedRestart := false
 	defer m.Close()
 	names := make([]string, s.N)
 	alive := map[string]bool{}
@@ -258,6 +264,9 @@ func execC01(b []byte) vx.Verdict {
 			}
 			m.StartNode(n)
 			alive[n] = true
+			if time.Since(t0) > 100*R+4*time.Second {
+				agedRestart = true // the old incarnation had sent more updates than the convergence bound has periods
+			}
 		}
 		labels = append(labels, "ev:"+ev.Kind)
 	}
@@ -309,6 +318,9 @@ func execC01(b []byte) vx.Verdict {
 				multihop = true
 			}
 		}
+	}
+	if agedRestart {
+		labels = append(labels, "restart-after-long-uptime")
 	}
 	if changed {
 		labels = append(labels, "tables-changed-by-events")
